@@ -7,6 +7,23 @@
 
 namespace etl {
 
+namespace detail {
+
+template <typename T>
+[[nodiscard]] constexpr auto fmax(T x, T y) noexcept -> T
+{
+    // a NaN argument is treated as missing data: the other argument is returned
+    if (x != x) {
+        return y;
+    }
+    if (y != y) {
+        return x;
+    }
+    return y < x ? x : y;
+}
+
+} // namespace detail
+
 /// \ingroup cmath
 /// @{
 
@@ -14,20 +31,20 @@ namespace etl {
 /// missing data (between a NaN and a numeric value, the numeric value is chosen)
 ///
 /// https://en.cppreference.com/w/cpp/numeric/math/fmax
-[[nodiscard]] constexpr auto fmax(float x, float y) noexcept -> float { return etl::detail::gcem::max(x, y); }
+[[nodiscard]] constexpr auto fmax(float x, float y) noexcept -> float { return etl::detail::fmax(x, y); }
 
-[[nodiscard]] constexpr auto fmaxf(float x, float y) noexcept -> float { return etl::detail::gcem::max(x, y); }
+[[nodiscard]] constexpr auto fmaxf(float x, float y) noexcept -> float { return etl::detail::fmax(x, y); }
 
-[[nodiscard]] constexpr auto fmax(double x, double y) noexcept -> double { return etl::detail::gcem::max(x, y); }
+[[nodiscard]] constexpr auto fmax(double x, double y) noexcept -> double { return etl::detail::fmax(x, y); }
 
 [[nodiscard]] constexpr auto fmax(long double x, long double y) noexcept -> long double
 {
-    return etl::detail::gcem::max(x, y);
+    return etl::detail::fmax(x, y);
 }
 
 [[nodiscard]] constexpr auto fmaxl(long double x, long double y) noexcept -> long double
 {
-    return etl::detail::gcem::max(x, y);
+    return etl::detail::fmax(x, y);
 }
 
 /// @}
